@@ -16,6 +16,7 @@ RULE = (
     "|V_k.n(theta) - Q(theta)| small, where Q is bracketed by the adjacent order statistics around (n-1)(1-alpha) (any standard empirical quantile is accepted); "
     "one surplus vertex that repeats its neighbour is tolerated, otherwise exactly 360/deg_step vertices are required; normals advance by exactly deg_step and cover the circle once. "
     "Non-trivial = n >= 50 and 360/deg_step >= 6; distinct = (sample seed, alpha, deg_step)."
+    " Also: supplied samples in row-major, column-major, transposed and strided layouts (the caller's bytes are compared before/after)."
 )
 ASSUMPTIONS = [
     "empirical (1-alpha)-quantile = any value between the order statistics adjacent to (n-1)(1-alpha)",
